@@ -320,6 +320,17 @@ def r4(ctx):
 # ------------------------------------------------------------------------------------------ R5
 def r5(ctx):
     R = "C01.R5"
+    # accepted means queued: once _enqueue_message has passed the purge and the capacity test it appends the entry it was given;
+    # there is no other way out (no de-duplication, no policy-dependent shortcut) - and send_with_header reaches the enqueue
+    # whenever the socket is open
+    enq_ = sock_fn(ctx, "_enqueue_message")
+    ap_ = [n for n, c in enq_.calls("_message_queue.append")]
+    ok = bool(ap_) and enq_.cfg.all_paths_pass(enq_.cfg.entry.id, [enq_.cfg.exit.id], [n.id for n in ap_], NONEXC)
+    ctx.check(ok, R, "_enqueue_message:every-accepted-entry-is-queued", enq_.module, enq_.node, "every normal return of _enqueue_message has appended the entry (the only other exit is the overflow error)", "a path returns without queueing the message: it is accepted and never sent")
+    swh_ = sock_fn(ctx, "send_with_header")
+    en_ = [n for n, c in swh_.calls("self._enqueue_message")]
+    ok = bool(en_) and swh_.cfg.all_paths_pass(swh_.cfg.entry.id, [swh_.cfg.exit.id], [n.id for n in en_], NONEXC)
+    ctx.check(ok, R, "send_with_header:every-accepted-message-is-enqueued", swh_.module, swh_.node, "every normal return of send_with_header has enqueued the message (the only other exit is the not-open error)", "a path returns normally without enqueueing: the caller believes the message was accepted")
     cons = package_calls(ctx.repo, lambda d: d.split(".")[-1] == "_MessageQueueEntry")
     m = ctx.repo.module(SOCKET)
     ctx.require(cons, "no _MessageQueueEntry construction found")
